@@ -324,6 +324,9 @@ func c08Converge(h *ipamHist) {
 	// time passes: the vSwitch cache and its block marks (10 min TTL) expire. Modelled by a controller
 	// restart with a fresh vSwitch pool, which is what expiry amounts to.
 	h.vsw, _ = vswitch.NewSwitchPool(100, "10m")
+	m.mu.Lock()
+	m.vswFull = nil
+	m.mu.Unlock()
 	h.restartController()
 	_, _ = h.reconcile() // (creates the restarted controller's per-node state, which the forced sync flags)
 	h.ctl.VerifForceSync("node-1")
